@@ -44,7 +44,8 @@ func newAMRunner() *amRunner {
 	r := &amRunner{}
 	r.a = stun.NewAgent(r.handler(0))
 	for i := range r.msgs {
-		r.msgs[i] = &stun.Message{TransactionID: amTID(int8(i))}
+		// the message class must not matter to Process: id i carries class i (request, indication, success, error)
+		r.msgs[i] = &stun.Message{TransactionID: amTID(int8(i)), Type: stun.NewType(stun.MethodBinding, stun.MessageClass(i%4))}
 	}
 
 	return r
@@ -181,6 +182,36 @@ func c13(c *core.Ctx) {
 	c.Section("mass-expiry", c.N(60, 2000), func(_ int64, r *gen.Rand) {
 		c13Mass(c, r)
 	})
+	// extreme instants: zero time, epoch, year 1, 2262 (UnixNano limit), 9999
+	c.SectionSerial("extreme-times", 1, func(_ int64, _ *gen.Rand) {
+		pts := []time.Time{{}, time.Unix(0, 0), time.Date(1, 1, 1, 0, 0, 1, 0, time.UTC), time.Unix(0, 1<<63-1), time.Unix(0, 1<<63-1).Add(time.Nanosecond),
+			time.Date(2262, 4, 12, 0, 0, 0, 0, time.UTC), time.Date(2500, 1, 1, 0, 0, 0, 0, time.UTC), time.Date(9999, 12, 31, 23, 59, 59, 0, time.UTC), amEpoch, time.Unix(0, -1<<63)}
+		for di, d := range pts {
+			for ti, t := range pts {
+				timeouts := 0
+				a := stun.NewAgent(func(e stun.Event) {
+					if amEventClass(e) == evTimeout {
+						timeouts++
+					}
+				})
+				_ = a.Start(amTID(0), d)
+				_ = a.Collect(t)
+				c.Eval(1)
+				c.Count("calls_compared", 2)
+				want := 0
+				if d.Before(t) {
+					want = 1
+				}
+				if timeouts != want {
+					c.Violate("spec-mismatch-extreme-times", "spec-mismatch:Collect-extreme-times", map[string]interface{}{
+						"deadline": d.String(), "collect_time": t.String(), "timeout_events": timeouts, "deadline_strictly_before": want == 1})
+
+					return
+				}
+				c.Distinct(uint64(di)<<8 | uint64(ti) | 5<<50)
+			}
+		}
+	})
 	// long random sequences over many ids, deadlines on both sides of the collect times, re-entrant handlers
 	c.Section("random-long", c.N(2000, 50000), func(_ int64, r *gen.Rand) {
 		c13Random(c, r)
@@ -276,7 +307,7 @@ func c13Random(c *core.Ctx, r *gen.Rand) {
 			}
 		case op < 65:
 			desc = fmt.Sprintf("Process(%x)", id[:2])
-			err = a.Process(&stun.Message{TransactionID: id})
+			err = a.Process(&stun.Message{TransactionID: id, Type: stun.NewType(stun.Method(r.Intn(0x1000)), stun.MessageClass(r.Intn(4)))})
 			if closed {
 				wantErr = "agent-closed"
 			} else {
